@@ -895,6 +895,9 @@ func (x *Exec) asTerm(val *Val) *smt.Term {
 func (x *Exec) fnPrefix(fr *Frame) string { return fr.prefix }
 
 func posOf(in ssa.Instruction) token.Pos {
+	if in == nil {
+		return token.NoPos
+	}
 	if p := in.Pos(); p.IsValid() {
 		return p
 	}
